@@ -119,6 +119,45 @@ theorem C04_plain_wf (frame : List Name) (p : Parent) (hp : p.overFrame) (deps :
   rw [hrw, hc, hpc]
   simp [Parent.operand]
 
+/-- classes with a column-keyed dict parameter (D112): the input is never collapsed to a series, and the kept
+    sub-schema still has everything requested -/
+theorem C04_plain_dict_wf (frame : List Name) (p : Parent) (deps : List Dep) (rw : Rw)
+    (h : plainDict frame p deps = some rw) :
+    ∃ s, rw.childs = [some s] ∧ Adequate frame [] p.cols s.toList ∧ ∀ c, s ≠ .one c := by
+  unfold plainDict at h
+  cases hsel : plainSel frame (detProj p deps []) with
+  | one c =>
+    rw [hsel] at h
+    simp only at h
+    split at h
+    · cases h
+    · cases h
+      have had := plainSel_adequate frame p deps []
+      rw [hsel] at had
+      exact ⟨.many [c], rfl, by simpa [Sel.toList] using had, fun c' => by simp⟩
+  | many l =>
+    rw [hsel] at h
+    simp only at h
+    obtain ⟨hrw, _⟩ := plain_spec h
+    have had := plainSel_adequate frame p deps []
+    rw [hsel] at had
+    exact ⟨.many l, by rw [hrw, hsel], had, fun c' => by simp⟩
+
+/-- … in particular a scalar selection never turns the input of such a class into a series -/
+theorem C04_plain_dict_no_collapse (frame : List Name) (p : Parent) (deps : List Dep) (rw : Rw) (c : Name)
+    (hsel : plainSel frame (detProj p deps []) = .one c) (h : plainDict frame p deps = some rw) :
+    rw.childs = [some (.many [c])] ∧ rw.keep = true := by
+  unfold plainDict at h
+  rw [hsel] at h
+  simp only at h
+  split at h
+  · cases h
+  · cases h; exact ⟨rfl, rfl⟩
+
+example : plainDict ["a", "b", "c"] (.scalar "c") [] = some { childs := [some (.many ["c"])], keep := true } ∧
+    plain ["a", "b", "c"] (.scalar "c") [] = some { childs := [some (.one "c")], keep := false } ∧
+    plainDict ["a", "b", "c"] (.list ["c", "a"]) [] = plain ["a", "b", "c"] (.list ["c", "a"]) [] := by decide
+
 theorem C04_plain_labels (K : KeyedOp γ) (hid : ∀ l, K.outCols l = l) (F : Frame γ) (p : Parent) (deps : List Dep)
     (extra : List Name) (rw : Rw) (h : plain F.cols p deps extra = some rw) :
     (evalRw K.op p.cols rw F).cols = p.cols := by
